@@ -12,15 +12,18 @@ import (
 
 // Spec fully determines one simulated run (together with the code).
 type Spec struct {
-	Prop     string            `json:"prop"`
-	Seed     uint64            `json:"seed"`
-	Params   map[string]string `json:"params,omitempty"` // world parameters that override the seeded swarm choice
-	Replay   bool              `json:"replay,omitempty"`
-	Script   []string          `json:"script,omitempty"` // scheduler events to follow (replay of scheduled worlds)
-	Keep     []int             `json:"keep,omitempty"`   // actor steps to keep (replay of step worlds); nil = all
-	KeepSet  bool              `json:"keep_set,omitempty"`
-	Over     map[string]int    `json:"over,omitempty"` // tape overrides
-	MaxSteps int               `json:"max_steps,omitempty"`
+	Prop    string            `json:"prop"`
+	Seed    uint64            `json:"seed"`
+	Params  map[string]string `json:"params,omitempty"` // world parameters that override the seeded swarm choice
+	Replay  bool              `json:"replay,omitempty"`
+	Script  []string          `json:"script,omitempty"` // scheduler events to follow (replay of scheduled worlds)
+	Keep    []int             `json:"keep,omitempty"`   // actor steps to keep (replay of step worlds); nil = all
+	KeepSet bool              `json:"keep_set,omitempty"`
+	Over    map[string]int    `json:"over,omitempty"` // tape overrides
+	// SequentialGroups: every scheduled group of the run takes its first enabled event each time, i.e. its requests
+	// run one after the other in task order (used by the minimiser to tell whether an interleaving is needed)
+	SequentialGroups bool `json:"sequential_groups,omitempty"`
+	MaxSteps         int  `json:"max_steps,omitempty"`
 }
 
 // Violation is one failed oracle rule. Its signature names the property, the
@@ -91,6 +94,7 @@ type ReplayFile struct {
 	Trace     []string `json:"trace"`
 	LogTail   []string `json:"log_tail,omitempty"`
 	Known     bool     `json:"known_finding,omitempty"`
+	Note      string   `json:"note,omitempty"` // what the minimiser learnt (e.g. whether an interleaving is needed)
 }
 
 func WriteJSON(path string, v any) error {
